@@ -41,7 +41,7 @@ ASSUMPTIONS = [
 
 def GATES(tier):
     return [("ops_judged", 500), ("walks", 500), ("attrs_checked", 2000), ("single_fault_judged", 100), ("single_fault_rejected", 50),
-            ("slot:dictkey", 5), ("slot:elem", 20), ("slot:leafattr", 10), ("slot:attr", 50)]
+            ("equal_value_other_type_cases", 10), ("transform_result_sweep", 200), ("slot:dictkey", 5), ("slot:elem", 20), ("slot:leafattr", 10), ("slot:attr", 50)]
 
 
 def walk(ctx, world, insts, op, history, phase, case):
@@ -95,8 +95,10 @@ def run(ctx, params):
                     twin = dr.replay(world, history)
                     good = dr.execute(world, twin, op, scopes=(), saturate=False)
                     slot = rng.choice(slots)
-                    bad_op = dr.substitute_nonconf(op, slot, rng)
+                    bad_op = dr.substitute_nonconf(op, slot, rng, insts)
                     ctx.count(f"slot:{slot[2][0]}")
+                    if "equal_value_other_type" in bad_op["position"]:
+                        ctx.count("equal_value_other_type_cases")
                     step = dr.execute(world, insts, bad_op, scopes=(), saturate=False)
                     ctx.count("ops_judged")
                     t = cg.BY_NAME.get((bad_op.get("attr") or "").split(",")[0], None)
@@ -129,6 +131,32 @@ def run(ctx, params):
                     dr.register_result(world, insts, step)
                     history.append(op)
                     walk(ctx, world, insts, op, history, f"{op.get('validity')}, {step.outcome}", case)
+            # ---- transform-result sweep: every present attribute (and one element of every non-empty collection) is
+            # transformed by functions whose result is of a wrong type (None, object, str/int swap, a float equal to the
+            # old int, the key where the keyed element is expected)
+            for target in range(min(len(insts), 3)):
+                cname = dr.class_name(world, insts[target])
+                if cname is None:
+                    continue
+                for n, (_o, a) in world.decl.attrs_of(cname).items():
+                    cur = insts[target].__dict__.get(n, dr._ABSENT)
+                    if cur is dr._ABSENT:
+                        continue
+                    hks = ["transform_attr"]
+                    if a.info.kind in cg.COLLECTION_KINDS and len(cur) > 0:
+                        hks.append("transform_item")
+                    for hk in hks:
+                        op = dr.gen_helper(world, rng, insts, target, hkind=hk, validity="nonconf", attr=n, inplace=rng.random() < 0.5)
+                        if op.get("attr") != n or op.get("position") != "transform_result":
+                            continue
+                        step = dr.execute(world, insts, op, scopes=(), saturate=False)
+                        ctx.count("ops_judged")
+                        ctx.count("transform_result_sweep")
+                        fn = next((r[1] for r in list(op["args"]) + list(op["kwargs"].values()) if isinstance(r, list) and r and r[0] == "fn"), None)
+                        ctx.sig("sweep", hk, a.info.kind, a.info.elem, fn, bool(op.get("inplace")), step.outcome)
+                        dr.register_result(world, insts, step)
+                        history.append(op)
+                        walk(ctx, world, insts, op, history, f"transform with ill-typed result {fn}, {step.outcome}", [params.get("shard"), ci, "sweep", n, hk])
         finally:
             world.close()
 
